@@ -65,6 +65,26 @@ inline void end_cycle() {
     S.forget_background();
 }
 
+// The first init()/fin() cycle of a process can only happen once, so it is spent before the first case; it is driven under the
+// scheduler for a fixed number of background iterations so that every process (generator shard or single-case replay) starts its
+// cases from the same library state: the epoch has advanced several times and a gc epoch is left behind.
+inline void warmup_cycle() {
+    auto& S = sched::Scheduler::get();
+    start_cycle();
+    std::vector<std::function<void()>> bodies;
+    bodies.emplace_back([&S] {
+        for (int i = 0; i < 400; ++i) {
+            if (S.bg_iterations(yv::TH_EPOCH) >= 6 && S.bg_iterations(yv::TH_GC) >= 6) { break; }
+            S.grant_background();
+        }
+    });
+    S.step_limit = 3000000;
+    S.preempt_cats = 0; // no preemption besides the grants: deterministic regardless of schedule bytes
+    S.run(std::move(bodies), sched::RevBytes());
+    S.preempt_cats = 0xffffffffU;
+    end_cycle();
+}
+
 // =====================================================================================================
 // C16
 // =====================================================================================================
@@ -92,22 +112,33 @@ inline vf::CaseResult run_c16(const vf::RunnerArgs& /*args*/, const std::vector<
                 std::vector<std::pair<std::string, tree_instance*>> lst;
                 ++st.checks;
                 if (list_storages(lst) != status::WARN_NOT_EXIST) { failx("cycle_not_empty", "list_storages reports storages right after init()"); }
-                std::vector<Token> toks;
-                for (std::size_t i = 0; i < YAKUSHIMA_MAX_PARALLEL_SESSIONS; ++i) {
-                    Token t{};
-                    ++st.checks;
-                    if (enter(t) != status::OK) { failx("cycle_slots_not_free", "enter #" + std::to_string(i) + " failed right after init()"); }
-                    toks.push_back(t);
+                // all slots free: in one cycle out of three through the API (capacity enters must succeed), otherwise by looking at
+                // the slots (entering and leaving every slot would also repair state that a broken init() left behind)
+                if (c.chance(1, 3)) {
+                    std::vector<Token> toks;
+                    for (std::size_t i = 0; i < YAKUSHIMA_MAX_PARALLEL_SESSIONS; ++i) {
+                        Token t{};
+                        ++st.checks;
+                        if (enter(t) != status::OK) { failx("cycle_slots_not_free", "enter #" + std::to_string(i) + " failed right after init()"); }
+                        toks.push_back(t);
+                    }
+                    for (auto t : toks) { leave(t); }
+                    tx << " (all slots entered and left)";
+                } else {
+                    for (auto& ti : thread_info_table::get_thread_info_table()) {
+                        ++st.checks;
+                        if (ti.get_running()) { failx("cycle_slots_not_free", "a session slot is still marked running right after init()"); }
+                    }
                 }
-                for (auto t : toks) { leave(t); }
             }
             // ---- body: generated ops (unscheduled part: structure; scheduled part: retire + virtual time)
             unsigned nstor = 1 + c.range(0, 2);
             unsigned nkeys = 1 + c.range(0, 40);
             bool leave_open = c.chance(1, 3);
+            unsigned open_slot = c.range(0, 3);
             bool do_destroy = c.chance(1, 4);
             unsigned nremove = c.range(0, nkeys);
-            tx << " storages=" << nstor << " keys=" << nkeys << " removes=" << nremove << (leave_open ? " session_left_open" : "") << (do_destroy ? " destroy_mid_cycle" : "");
+            tx << " storages=" << nstor << " keys=" << nkeys << " removes=" << nremove << (leave_open ? " session_left_open(slot " + std::to_string(open_slot) + ")" : "") << (do_destroy ? " destroy_mid_cycle" : "");
             std::vector<std::string> names;
             for (unsigned i = 0; i < nstor; ++i) {
                 std::string n = "st" + std::to_string(i);
@@ -149,7 +180,13 @@ inline vf::CaseResult run_c16(const vf::RunnerArgs& /*args*/, const std::vector<
                     if (remove(tok, names[i % names.size()], k) != status::OK) { werr = "remove failed"; }
                 }
                 leave(tok);
-                if (leave_open) { enter(open_tok); }
+                if (leave_open) {
+                    // the session that stays open may sit in any slot: open a few, close all but one
+                    std::vector<Token> tmp(1 + open_slot);
+                    for (auto& t0 : tmp) { enter(t0); }
+                    open_tok = tmp.back();
+                    for (std::size_t i = 0; i + 1 < tmp.size(); ++i) { leave(tmp[i]); }
+                }
                 // let virtual time pass: grant the background threads full iterations
                 const std::uint64_t e0 = S.bg_iterations(yv::TH_EPOCH);
                 const std::uint64_t g0 = S.bg_iterations(yv::TH_GC);
